@@ -226,7 +226,7 @@ class Ctx:
             "samples": self.samples[:6],
             "exhaustive": self.exhaustive,
             "inconclusive": len(self.inconclusive),
-            "inconclusive_reasons": sorted(set(w[:200] for _, w in self.inconclusive))[:5],
+            "inconclusive_reasons": sorted(set(w[:1500] for _, w in self.inconclusive))[:5],
             "skipped": self.skipped,
             "known_findings_reported": sorted(set(self.known_hits)),
             "counters": dict(sorted(self.counters.items())),
